@@ -4,7 +4,7 @@ treated as leaves, with the reason recorded as an assumption of the property).""
 KALMAN_STOP = (r'^ntp_proto::algorithm::kalman::',
                'the clock filter numerics (Kalman source filter / matrix code, property C06 territory) are a leaf: a panic inside '
                'the filter for extreme measurement values is not decided here')
-NETPTP_STOP = (r'^statime_netptp::',
+NETPTP_STOP = (r'^<*statime_netptp::',
                'the OS socket layer (statime_netptp: libc socket options, timestamping control messages) is a leaf: its failures are '
                'environment failures, not consequences of datagram contents')
 
@@ -22,6 +22,10 @@ ROOTS = {
                       'ntp_proto::nts::messages::SupportsResponse::serialize'], 'stops': []},
     'C31': {'roots': ['ntp_proto::ipfilter::IpFilter::is_in', 'ntp_proto::ipfilter::IpFilter::new',
                       '<ntp_proto::server::IpSubnet as core::str::traits::FromStr>::from_str'], 'stops': []},
+    # toml::from_str is outside the workspace, so the serde entry points it calls back into are roots themselves:
+    # every Deserialize / Visitor / DeserializeSeed method implemented in ntp-proto and ntpd (hand-written or derived).
+    'C39': {'roots': ['ntpd::daemon::config::Config::check', 'ntpd::daemon::config::Config::from_file'],
+            'root_regex': r'^<+(ntpd|ntp_proto)::.* as serde_core::de::(Deserialize|Visitor|DeserializeSeed)(<.*>)?>::\w+$', 'stops': [NETPTP_STOP]},
     'C40': {'roots': ['ntpd::daemon::sock_source::deserialize_sample', 'ntpd::daemon::sock_source::SockSourceTask::run'],
             'stops': [KALMAN_STOP, NETPTP_STOP]},
     'C41': {'roots': ['statime_wire::messages::Message::deserialize', 'statime_wire::messages::Message::serialize',
